@@ -12,79 +12,79 @@ P = {
         text='Generated-input search: every step result is judged by an independent membership model and by the declared spaces; the space predicates are compared in both directions with the model on conforming and single-aspect non-conforming members; shipped configurations are walked with generated action sequences. Exploration, not proof: bounded grid sizes and case counts.',
         note='Trusted: Hypothesis, the descriptor builder/canonicaliser, vendored PyYAML as a parser. Preconditions respected by construction (unique objects for distance rewards, beacon present for memory reward, partially_occluded only with area.ymax == 0).', ref='4/C01'),
     'C02': dict(
-        tech='stateful property-based testing (Hypothesis rule-based machine) with replay oracle and global-RNG snapshots; differential across interpreter processes with different PYTHONHASHSEED',
+        tech='stateful property-based testing (Hypothesis rule-based machine) with replay oracle and global-RNG snapshots; differential across interpreter processes with different PYTHONHASHSEED and against interpreters started freshly after warm-up environments; reset functions, transition chains and observation functions under differently seeded global generators',
         text='Interleaved operations on several seeded environments are replayed alone and must give identical traces; every operation must leave numpy.random, random and the library generator untouched; worker processes started with different hash seeds must produce identical trace digests.',
         note='Hash-seed dependence is sampled at a few PYTHONHASHSEED values per run. Trusted: canonical form, PyYAML parser.', ref='4/C02'),
     'C03': dict(
-        tech='property-based testing (Hypothesis): before/after canonical-form comparison, identity-disjointness and behavioural scribble tests, metamorphic history independence across cache-churning call sequences',
+        tech='property-based testing (Hypothesis): before/after canonical-form comparison, identity-disjointness and behavioural scribble tests, metamorphic history independence across cache-churning call sequences; every answer of selected cases compared with the answer of a process that has executed nothing before',
         text='Generated states (nested boxes, doors, held items) x actions x compositions: inputs canonically unchanged, next state shares no mutable part with its input (by object identity and by mutation in both directions), answers equal before and after intervening calls that churn the memoisation caches, copies equal and hash alike.',
         note='Observation cells aliasing state objects is not reported (the property only constrains states and next states). Exploration level.', ref='4/C03'),
     'C04': dict(
-        tech='stateful property-based testing (Hypothesis rule-based machine) against a shadow driven through the functional interface with the same seed',
+        tech='stateful property-based testing (Hypothesis rule-based machine) against a shadow driven through the functional interface with the same seed (rejected steps, re-seeding, representation swaps, kept reset objects)',
         text='Arbitrary read/step/reset patterns on an environment are mirrored by a twin that threads states through the functional interface and computes each observation once per state; any stale, eager or repeated computation desynchronises the two generators and is observed as a differing state/observation.',
         note='Uses stochastic transitions and stochastic_raytracing so RNG consumption is observable. Exploration level.', ref='4/C04'),
     'C05': dict(
-        tech='property-based testing (Hypothesis) against a reference model of the view-cell to world-cell map',
+        tech='property-based testing (Hypothesis) against a reference model of the view-cell to world-cell map (view areas up to 257x257; observe, edit in place, observe again)',
         text='For generated grids, poses, areas and all five observation functions each observation cell must be Hidden or canonically equal to the model-mapped world cell; off-grid cells Hidden; shape, agent anchor, heading and held item as stated; fully_transparent shows every in-grid cell.',
         note='Model uses forward/right vectors, independent of the rotation tables. Exploration level.', ref='4/C05'),
     'C06': dict(
-        tech='metamorphic property-based testing (Hypothesis) plus exhaustive enumeration of opacity patterns of small views',
+        tech='metamorphic property-based testing (Hypothesis) plus exhaustive enumeration of opacity patterns of small views; large views (up to 33x33) incl. worlds built so that exactly one of n rays reaches a cell lit; adversarial numpy Generator for the stochastic variant',
         text='Replacing hidden/out-of-view cells must not change the observation; agent cell visible; visible cells linked through visible transparent cells; clearing a visible opaque cell hides nothing; stochastic view bracketed by deterministic ones. Small views are enumerated over all opacity patterns.',
         note='The exact visible set is not asserted. Exploration (exhaustive only for the enumerated views).', ref='4/C06'),
     'C07': dict(
-        tech='metamorphic property-based testing (Hypothesis): coordinate-level world rotation vs. observation equality',
+        tech='metamorphic property-based testing (Hypothesis): coordinate-level world rotation vs. observation equality; pose sweeps through very wide worlds and their rotations; user-defined sequence-like cells',
         text='The world (grid and pose) is rotated by an independent coordinate formula and the observation must be canonically equal, for all deterministic observation functions and generated areas.',
         note='Exploration level.', ref='4/C07'),
     'C08': dict(
-        tech='property-based testing (Hypothesis) against a reference kinematics model; exhaustive heading x action x target-kind table; generated histories',
+        tech='property-based testing (Hypothesis) against a reference kinematics model; exhaustive heading x action x target-kind table; generated histories; edited histories (every calling convention of the dynamics interleaved with user edits); coordinate sweeps over worlds of up to 2 x 65600 cells',
         text='Generated and enumerated (state, action) pairs are compared with a model of moves/turns; histories from valid initial states keep the agent inside the grid and off blocking cells.',
         note='blocks_movement read from the real object, door-status relation checked against model table. Exploration level.', ref='4/C08'),
     'C09': dict(
-        tech='property-based testing (Hypothesis): multiset-conservation invariant and differential against a reference transition model; generated histories',
+        tech='property-based testing (Hypothesis): multiset-conservation invariant and differential against a reference transition model; generated histories; edited histories; user-defined payload objects',
         text='Multiset of deep-canonical objects (grid plus hand) conserved up to box opening; deterministic chains equal the model next state exactly; scenery never moves.',
         note='Exploration level.', ref='4/C09'),
     'C10': dict(
-        tech='exhaustive enumeration of door/key/pose/action table plus property-based testing (Hypothesis) against a reference model; guided and random histories',
+        tech='exhaustive enumeration of door/key/pose/action table plus property-based testing (Hypothesis) against a reference model; guided and random histories; edited histories; stateful route compared deeply; one agent object carried through very wide worlds',
         text='All status x colour x held item x relative pose x action combinations are checked against the documented door/box rules; generated multi-door states and key-door histories check that locked doors open only by a faced ACTUATE with a matching key.',
         note='Exhaustive for the enumerated table only.', ref='4/C10'),
     'C11': dict(
-        tech='property-based testing (Hypothesis) with a scripted numpy Generator resolving every random choice, validity predicate over outcomes and possibility coverage',
+        tech='property-based testing (Hypothesis) with a scripted numpy Generator resolving every random choice, validity predicate over outcomes and possibility coverage; edited histories; telepod histories with every outcome resolved after world edits; coordinate sweeps',
         text='Obstacle and telepod layouts are run under all scripted outcomes (or many seeds); each outcome must satisfy an order-agnostic validity predicate and every allowed destination must be produced by some outcome.',
         note='Possibility relies on the scripted generator while the code draws through Generator.choice/integers; otherwise falls back to seeds.', ref='4/C11'),
     'C12': dict(
-        tech='differential property-based testing (Hypothesis) against docstring re-implementations of every reward/termination function',
+        tech='differential property-based testing (Hypothesis) against docstring re-implementations of every reward/termination function (also inside worlds of more than 1000 cells, and asked again after in-place edits)',
         text='Arbitrary and dynamics-produced (state, action, next state) triples with generated parameters: exact agreement with the model, composites equal sum/any/all of parts, GridWorld evaluates on the same step, exit reward paid exactly when exit-termination fires along shipped trajectories.',
         note='bump_into_wall compared on states whose agent is not on a wall; beacons share one colour. Exploration level.', ref='4/C12'),
     'C13': dict(
-        tech='property-based testing (Hypothesis): generated parameters x seeds against a well-formedness predicate per reset function',
+        tech='property-based testing (Hypothesis): generated parameters x seeds against a well-formedness predicate per reset function; adversarial numpy Generator (legal extreme outcomes); exhaustive sweep of (length, rooms) pairs',
         text='Each call must return a state satisfying the model predicate for that function or raise ValueError; honourable parameter families must not raise.',
         note='River count for crossing not asserted. Exploration level.', ref='4/C13'),
     'C14': dict(
-        tech='property-based testing (Hypothesis) with model planning and breadth-first search over the real step function as witness oracle',
+        tech='property-based testing (Hypothesis) with model planning and breadth-first search over the real step function as witness oracle; long layouts with adversarial generators; exhaustive sweep of (length, rooms) pairs',
         text='For generated valid parameters and seeds a witness action sequence is planned on descriptors and executed on the real functional_step; absence is decided by exhaustive BFS over the real step for deterministic environments.',
         note='dynamic_obstacles: randomised witness search, no-witness = inconclusive.', ref='4/C14'),
     'C15': dict(
-        tech='property-based testing (Hypothesis) with members built to hit every maximum; exhaustive per-object enumeration; generated histories through OuterEnv and GymEnvironment',
+        tech='property-based testing (Hypothesis) with members built to hit every maximum; exhaustive per-object enumeration; generated histories through OuterEnv and GymEnvironment (members tiled to dimensions of 40..300)',
         text='Member states/observations of generated spaces are converted under all three representations and checked key by key against the declared space, an independent bounds model and the gym spaces.',
         note='Exploration level.', ref='4/C15'),
     'C16': dict(
-        tech='property-based testing (Hypothesis) on near-collision pairs plus exhaustive per-object enumeration over type/colour subsets',
+        tech='property-based testing (Hypothesis) on near-collision pairs plus exhaustive per-object enumeration over type/colour subsets; user-defined types (subclass orders, hundreds of statuses); environment-level reads across representation switches',
         text='Equality of representations iff equality of members, positional per-cell encoding, agent marker, default triple, channel disjointness (no-overlap) and gap-freeness (compact).',
         note='Exploration; exhaustive for the per-object claims over enumerated spaces.', ref='4/C16'),
     'C17': dict(
-        tech='differential property-based testing (Hypothesis): factory-built environment vs. hand-assembled environment on generated trajectories; generated valid perturbations and corruptions of the shipped configurations',
+        tech='differential property-based testing (Hypothesis): factory-built environment vs. hand-assembled environment on generated trajectories; generated valid perturbations and corruptions of the shipped configurations; YAML files rewritten under preserved modification times; re-bound registry names',
         text='Shipped files, valid perturbations and systematic corruptions: byte-identical packaged copies, registry ids, differential trajectories, input unchanged, repeatable builds, factory(name, **kw) equivalence, rejection with SchemaError/ValueError.',
         note='PyYAML trusted as parser.', ref='4/C17'),
     'C18': dict(
-        tech='exhaustive enumeration of orientation laws plus property-based testing (Hypothesis) with unbounded integers against an independent vector-basis model',
+        tech='exhaustive enumeration of orientation laws plus property-based testing (Hypothesis) with unbounded integers against an independent vector-basis model; laws re-checked after in-place pose updates; numpy-integer twins and offsets around 2**63',
         text='Group laws are enumerated completely over orientations; linearity, isometry, transform associativity/identity/inverse, area images, grid rotation and next-position agreement are searched over unbounded integer coordinates and compared with an independent model.',
         note='Exhaustive only over orientations; integer coordinates and area extents are sampled.', ref='4/C18'),
     'C19': dict(
-        tech='exhaustive enumeration of areas x origins x rays plus property-based testing (Hypothesis) of offsets, angles and cache query histories',
+        tech='exhaustive enumeration of areas x origins x rays plus property-based testing (Hypothesis) of offsets, angles and cache query histories; strips of up to 2800 cells, longest query first per process, a fan over a 10500-cell corridor',
         text='Every ray of every fan for all areas up to the bound is checked for origin, containment, uniqueness, adjacency and border termination; fans cover the area; cached and uncached results agree after arbitrary query histories.',
         note='Exhaustive up to the stated area bound.', ref='4/C19'),
     'C20': dict(
-        tech='stateful property-based testing (Hypothesis rule-based machine) against a functionally driven twin environment',
+        tech='stateful property-based testing (Hypothesis rule-based machine) against a functionally driven twin environment (sibling instances of one id, inner environment driven directly, representations replaced behind the adapter)',
         text='reset/step/representation-switch/wrapper sequences on every shipped configuration (direct and through registry ids) must agree with a twin inner environment and stay inside the advertised gym spaces.',
         note='Representation conversion trusted here (covered by C15/C16); gym 0.26 wrappers bypassed via .unwrapped.', ref='4/C20'),
 }
